@@ -177,14 +177,21 @@ func (r *Run) oracleC05() {
 	if len(r.installs) == 0 {
 		return
 	}
-	// program position of every part, for per-source monotonicity
+	// program position of every part, for per-source monotonicity: the latest
+	// operation that sent it (a part may be reported again) and the earliest
 	pos := map[uint64]progPos{}
-	for ci := range r.sc.Clients {
-		c := &r.sc.Clients[ci]
-		for oi := range c.Ops {
-			if p := c.Ops[oi].Part; p != nil {
-				pos[p.ID] = progPos{c.Name, oi}
-			}
+	first := map[uint64]int{}
+	sends := map[uint64][]progPos{}
+	for _, op := range r.ops {
+		if op.PartID == 0 || (op.K != "report" && op.K != "breport" && op.K != "setsource") {
+			continue
+		}
+		sends[op.PartID] = append(sends[op.PartID], progPos{op.Client, op.Idx})
+		if p, ok := pos[op.PartID]; !ok || op.Idx > p.idx {
+			pos[op.PartID] = progPos{op.Client, op.Idx}
+		}
+		if f, ok := first[op.PartID]; !ok || op.Idx < f {
+			first[op.PartID] = op.Idx
 		}
 	}
 	for i, in := range r.installs {
@@ -225,9 +232,12 @@ func (r *Run) oracleC05() {
 			if r.file != nil && s == r.file.idx {
 				continue // a file's content is whatever was read, torn reads included (tornReadExplains)
 			}
-			if in.Stamps[s] == 0 || (r.sc.Sources[s].Init != nil && in.Stamps[s] == r.sc.Sources[s].Init.ID) {
+			_, resent := pos[in.Stamps[s]]
+			if in.Stamps[s] == 0 || (r.sc.Sources[s].Init != nil && in.Stamps[s] == r.sc.Sources[s].Init.ID && !resent) {
 				r.fail("C05.stale-slot", "source %d went back from report %d to its initial value in version serial=%d", s, prev.Stamps[s], in.Serial)
-			} else if a.client == b.client && a.client != "" && b.idx < a.idx {
+			} else if init := r.sc.Sources[s].Init; init != nil && prev.Stamps[s] == init.ID {
+				// leaving the initial value is always forward, whenever it was reported again
+			} else if a.client != "" && b.client != "" && !forward(sends[prev.Stamps[s]], sends[in.Stamps[s]]) {
 				r.fail("C05.stale-slot", "source %d went back from report #%d to report #%d of %s in version serial=%d", s, a.idx, b.idx, a.client, in.Serial)
 			}
 		}
@@ -276,6 +286,9 @@ func (r *Run) oracleC05() {
 		}
 	}
 	r.noLostUpdate()
+	if r.sc.Prop == "C05" {
+		r.linearizability()
+	}
 }
 
 // candidates returns the ids the slot of source s may hold once everything
@@ -377,8 +390,13 @@ func (r *Run) staleSlots(pos map[uint64]progPos) {
 		}
 	}
 	for _, op := range r.ops {
+		if init := r.sc.Sources[op.Src].Init; init != nil && init.ID == op.PartID {
+			continue // the initial value was in its slot from the start, whenever it is reported again
+		}
 		if op.PartID != 0 && (op.K == "report" || op.K == "breport" || op.K == "setsource") {
-			opOf[op.PartID] = op
+			if prev, ok := opOf[op.PartID]; !ok || op.Invoke < prev.Invoke {
+				opOf[op.PartID] = op // the first submission of that part (it may be reported again later)
+			}
 		}
 	}
 	for _, in := range r.installs[1:] {
@@ -411,10 +429,35 @@ func (r *Run) staleSlots(pos map[uint64]progPos) {
 			if in.Stamps[op.Src] == op.PartID {
 				continue
 			}
+			if later, ok := pos[op.PartID]; ok && later.idx != op.Idx {
+				continue // that part was submitted more than once: which submission is meant is ambiguous
+			}
 			if have.client == "" || have.idx < op.Idx {
 				r.fail("C05.stale-slot", "version serial=%d (step %d) carries report %d of source %d although the later report %d of that source had been received by step %d, before the version was composed (it also carries a report first submitted at step %d)", in.Serial, in.Step, in.Stamps[op.Src], op.Src, op.PartID, op.Return, tau)
 				return
 			}
 		}
 	}
+}
+
+// forward: can a slot legitimately go from a value sent by the operations
+// `from` to a value sent by the operations `to`? Yes when some send of the new
+// value comes from another client than every send of the old one (concurrent
+// reporters), or follows a send of the old value in the same client's program.
+func forward(from, to []progPos) bool {
+	for _, b := range to {
+		other := true
+		for _, a := range from {
+			if a.client == b.client {
+				other = false
+				if b.idx > a.idx {
+					return true
+				}
+			}
+		}
+		if other {
+			return true
+		}
+	}
+	return false
 }
